@@ -8,7 +8,11 @@ for d in seeded/${1:-}*/; do
   id=$(basename "$d")
   prop=$(python3 -c "import json,sys; print(json.load(open('$d/meta.json'))['property'])")
   out=$(tools/try_mutant.sh "$d/patch.diff" "$prop" 2>&1)
-  if echo "$out" | grep -q "PATCH DOES NOT APPLY"; then echo "$id $prop patch-does-not-apply (rebase it onto the current /repo HEAD)"; continue; fi
+  if echo "$out" | grep -q "PATCH DOES NOT APPLY"; then
+    sup=$(python3 -c "import json; m=json.load(open('$d/meta.json')); print(m.get('superseded',{}).get('last_verified_silent_on_repo_commit',''))")
+    if [ -n "$sup" ]; then echo "$id $prop superseded (verified on /repo $sup, no longer applies to the repaired tree)"; else echo "$id $prop patch-does-not-apply (rebase it onto the current /repo HEAD)"; fi
+    continue
+  fi
   case "$id" in R-*)
     # behaviour-preserving refactoring: the check must stay silent
     if echo "$out" | grep -q -- "-> exit 0" && ! echo "$out" | grep -q "^VIOLATION"; then res=silent-as-expected; else res=FALSE-ALARM; fi
